@@ -47,3 +47,50 @@ op("seq_at", "Tuple[NStr,Int]", "result == smt_at(args[0], args[1])", "NStr", en
 STR_IDX2 = tup(*[(s, i, n) for s in ("", "a", "abcd") for i in (-3, -1, 0, 1, 4, 6) for n in (-1, 0, 1, 2, 9)])
 op("seq_extract", "Tuple[NStr,Int,Int]", "result == smt_substr(args[0], args[1], args[2])", "NStr", enum=STR_IDX2)
 op("str_to_code", "Tuple[NStr]", "result == smt_to_code(args[0])", "Int", enum=tup(("",), ("a",), ("ab",), ("\n",)))
+
+
+# ---- operator binding: every case function of the dispatch chain answers only for its own operator --------
+# (C05, C02).  The constructors above are verified against ONE SMT-LIB operator each; which z3 head symbol a
+# case function claims is decided by its applicability guard (`if not z3.is_mod(expr): return Nothing`,
+# `expr.decl().kind() != z3.Z3_OP_...`, `expr.decl().name() != "re.range"`).  z3 terms are modelled by their
+# head-symbol category `op` and declaration name (ASSUMED model of the z3 API; `z3.is_x` is read from the z3.py
+# the repo runs with).  Proved from the real guard text: the function answers (result is not Nothing) exactly /
+# only for the operator its constructor was verified against.  Hence no operator is routed to a constructor
+# with another operator's semantics, whatever the order of the chain.
+record("Z3Expr", module="z3", fields={"op": "Int", "declname": "Str"}, value_eq=False)
+ZX = "Rec:Z3Expr"
+GUARD_CALLS = {"expr.decl().kind()": "expr.op", "expr.decl().name()": "expr.declname"}
+
+
+def binds(fn, kind=None, declname=None, exact=True, note=""):
+    """exact: the guard is the only `return Nothing` of the function (answers exactly for the operator);
+    otherwise further conditions may still decline, and only `answers => its operator` is claimed"""
+    is_op = f"expr.op == z3op('{kind}')" if kind else f"expr.declname == '{declname}'"
+    ens = {"answers_only_its_operator": f"implies(result is not None, {is_op})"}
+    if exact:
+        ens["answers_its_operator"] = f"implies({is_op}, result is not None)"
+    contract(f"{Z}{fn}@guard", props=["C05", "C02"], types={"expr": ZX, "children_results": "Any"},
+             arg_order=["expr", "children_results"], returns="Opt[Any]",
+             fragment=dict(rule="guard_prefix"), ensures=ens,
+             path_hints={"calls": GUARD_CALLS}, crosscheck=False, native=f"guard:isla.z3_helpers:evaluate_z3_{fn}",
+             note=note)
+
+
+for fn, kind in (("not", "Z3_OP_NOT"), ("and", "Z3_OP_AND"), ("or", "Z3_OP_OR"), ("eq", "Z3_OP_EQ"),
+                 ("lt", "Z3_OP_LT"), ("le", "Z3_OP_LE"), ("gt", "Z3_OP_GT"), ("ge", "Z3_OP_GE"),
+                 ("add", "Z3_OP_ADD"), ("sub", "Z3_OP_SUB"), ("mul", "Z3_OP_MUL"), ("mod", "Z3_OP_MOD"),
+                 ("pow", "Z3_OP_POWER"), ("seq_length", "Z3_OP_SEQ_LENGTH"), ("seq_concat", "Z3_OP_SEQ_CONCAT"),
+                 ("seq_at", "Z3_OP_SEQ_AT"), ("seq_extract", "Z3_OP_SEQ_EXTRACT"),
+                 ("str_to_code", "Z3_OP_STR_TO_CODE"), ("seq_to_re", "Z3_OP_SEQ_TO_RE"),
+                 ("re_concat", "Z3_OP_RE_CONCAT"), ("seq_in_re", "Z3_OP_SEQ_IN_RE"), ("re_star", "Z3_OP_RE_STAR"),
+                 ("re_plus", "Z3_OP_RE_PLUS"), ("re_option", "Z3_OP_RE_OPTION"), ("re_union", "Z3_OP_RE_UNION"),
+                 ("re_full_set", "Z3_OP_RE_FULL_SET"), ("false_value", "Z3_OP_FALSE"), ("true_value", "Z3_OP_TRUE"),
+                 ("string_value", "VALUE:is_string_value"), ("int_value", "VALUE:is_int_value"),
+                 ("rat_value", "VALUE:is_rational_value")):
+    binds(fn, kind=kind)
+binds("div", kind="Z3_OP_DIV",
+      note="`/` on reals (Z3_OP_DIV) only: integer division `div` (Z3_OP_IDIV) rounds differently and has no fast path")
+binds("str_to_int", kind="Z3_OP_STR_TO_INT", exact=False, note="may still raise DomainError for the empty string")
+binds("re_loop", kind="Z3_OP_RE_LOOP", exact=False, note="declines the application form (bounds as arguments)")
+binds("re_range", declname="re.range")
+binds("re_comp", declname="re.comp", exact=False, note="declines complements of anything but a union of strings or a range")
